@@ -90,6 +90,13 @@ def as_violation(e: BaseException):
         fn = fr.filename.replace("\\", "/")
         if "/cooler/" in fn and "/vfw/" not in fn:
             return Violation(f"the library raised {type(e).__name__}: {str(e)[:300]} at {os.path.basename(fn)}:{fr.lineno}")
+    # the harness itself touches HDF5 only to read what the code under test wrote: a dataset, group or attribute that
+    # the schema requires and that cannot be read is a finding about the file, not about the harness
+    tb = traceback.extract_tb(e.__traceback__)
+    if tb and "h5py" in tb[-1].filename:
+        where = next((f"{os.path.basename(fr.filename)}:{fr.lineno}" for fr in reversed(tb) if "/vfw/" in fr.filename), "")
+        return Violation(f"an HDF5 object that the check reads from the file under test is missing or unreadable: "
+                         f"{type(e).__name__}: {str(e)[:200]} (read at {where})")
     return None
 
 
